@@ -75,6 +75,11 @@ checks["C12"]=dict(
    note="Trusted: the two keyword vocabularies tabulated in c12.go. NOT decided: validity of whole documents for independent loaders, validation of arbitrary encoded Go values (only the nullable/any clauses), name collisions of foreign objects.",
    technique="dispatch exhaustiveness + keyword/dialect table over the resolved Set(...) call sites + must-pass-through rule on the closure loop + exact-guard rules on the struct skeleton",
    design="§3.C12")
+checks["C14"]=dict(
+   text="Generator-side necessary conditions for 'every option and argument needed to reproduce v appears exactly once': each FromBuilder call runs on its own generator (no mapped-path memory from one builder to the next); every option is mapped and only empty mappings are discarded; the already-mapped key distinguishes assignments by path, constant and envelope fields; options appending union branches to a list are grouped by the list's path alone; the choice between builders of one type is guarded by constructor constants only; each language's converter template consumes every member of languages.ArgumentMapping (Disjunction exempt where the chain removes unions).",
+   note="Three of the six rules (key, grouping, choice guards) were written after independent seeded changes showed which structural facts the behaviour hinges on; they are exact-shape rules on languages/converter.go. NOT decided: that the printed expression compiles and rebuilds the object (two stages of execution away), default guards, value formatting.",
+   technique="who-may-call rule on the generator + structural must-read / must-derive-from rules on the key, grouping and guard expressions + union-member consumption over the template ASTs",
+   design="§3.C14")
 checks["C04"]=dict(
    text="Eight structural clauses, each a necessary condition of 'never panics / never hangs' (a reported site is a potential crash; every site reported on the pinned tree was triaged: 33 fixed in /repo, 7 recorded as findings): bounded recursion and loops through references (visited set / depth bound / leaf-kind test; closures included), no explicit panic reachable from the pipeline entry points, no unchecked single-value type assertion on `any` values, no pointer lookup used with its found-flag discarded, guarded constant indexing at the JSON-family parser frontier, kind-guarded access to kind-specific members of collection elements, consistent key derivation on probed-and-filled sets.",
    note="Trusted: the AST-level call graph (static calls, class-hierarchy interface calls, func-typed fields by stored values; func literals attributed to their enclosing function); text/template recovers panics of template functions. NOT decided: nil dereference of Type.<Kind> accessors on non-element values, index out of range on IR slices and CUE values, stack depth on deeply nested acyclic input, time/space blow-up, panics inside third-party libraries.",
